@@ -16,6 +16,9 @@
 (*   FixSnapshot      a reader pins the view at acquisition and catch-up   *)
 (*                    becomes visible only at the swap (code: in place)    *)
 (*   FixStraggler     the reload goroutine pins the backend it works on    *)
+(* The code-shaped configuration (servelib.CODE_FIX) has FixValidateSame,  *)
+(* FixInsertEpoch and FixStraggler TRUE since fix: commits F6, F7 and F13;  *)
+(* FixSnapshot stays FALSE (known finding F12).                            *)
 (* Generations identify content; the environment only installs             *)
 (* non-decreasing generations, so "stale" = smaller number.                *)
 (***************************************************************************)
